@@ -1,8 +1,8 @@
 #!/bin/bash
-# verify_seed.sh <worktree with the change applied and seed/ inside> <property id> [name]
-# Confirms an independently written breaking change: the patch applies to /repo HEAD, the baseline
-# tests pass with it, the demonstration fails with it and passes without it. Then stores it under
-# /verif/seeded/<name>/ and reports which quick checks flag it.
+# verify_seed.sh <agent worktree containing seed/> <property id> [name]
+# Confirms an independently written breaking change from its deliverables only (patch.diff, demo/):
+# the patch applies to /repo HEAD in a fresh worktree, the baseline tests pass with it, the
+# demonstration fails with it and passes without it. Stores it under /verif/seeded/<name>/.
 set -u
 WT=$1; PROP=$2; NAME=${3:-$PROP}
 export CARGO_NET_OFFLINE=true
@@ -11,19 +11,18 @@ mkdir -p $OUT
 cp $WT/seed/patch.diff $OUT/patch.diff
 rm -rf $OUT/demo; cp -r $WT/seed/demo $OUT/demo; rm -rf $OUT/demo/target
 cp $WT/seed/meta.json $OUT/agent_meta.json 2>/dev/null
-# 1. patch applies to the current /repo HEAD
-CLEAN=/tmp/verify_clean_$NAME
-git -C /repo worktree remove --force $CLEAN 2>/dev/null
-git -C /repo worktree add -q $CLEAN HEAD || exit 2
-( cd $CLEAN && git apply --check $OUT/patch.diff ) && echo "patch applies to /repo HEAD: yes" || { echo "patch applies: NO"; }
-# 2. baseline tests with the change (in the agent's worktree, already built)
-( cd $WT && cargo test --workspace --no-fail-fast --offline 2>&1 | grep -E "^test result" | awk '{p+=$4; f+=$6} END {print "tests with change: passed=" p " failed=" f}' )
-# 3. demo with and without the change
-sed -i "s#path = \"../..\"#path = \"$WT\"#" $OUT/demo/Cargo.toml
+CLEAN=/tmp/verify_clean_$NAME; WITH=/tmp/verify_with_$NAME
+for d in $CLEAN $WITH; do git -C /repo worktree remove --force $d 2>/dev/null; git -C /repo worktree add -q $d HEAD || exit 2; done
+if ( cd $WITH && git apply $OUT/patch.diff ); then echo "patch applies to /repo HEAD: yes"; else echo "patch applies: NO"; fi
+# reuse the agent's build output when present (same sources modulo the patch) to save time
+[ -d $WT/target ] && cp -r $WT/target $WITH/target 2>/dev/null
+( cd $WITH && cargo test --workspace --no-fail-fast --offline 2>&1 | grep -E "^test result" | awk '{p+=$4; f+=$6} END {print "tests with change: passed=" p " failed=" f}' )
 rundemo() { if [ -f run.sh ]; then bash run.sh >/dev/null 2>&1; else cargo run --offline -q >/dev/null 2>&1; fi; }
+sed -i "s#path = \"../..\"#path = \"$WITH\"#" $OUT/demo/Cargo.toml
 ( cd $OUT/demo && rundemo; echo "demo with change: exit $?" )
-sed -i "s#path = \"$WT\"#path = \"$CLEAN\"#" $OUT/demo/Cargo.toml
+sed -i "s#path = \"$WITH\"#path = \"$CLEAN\"#" $OUT/demo/Cargo.toml
 ( cd $OUT/demo && rundemo; echo "demo without change: exit $?" )
 sed -i "s#path = \"$CLEAN\"#path = \"../..\"#" $OUT/demo/Cargo.toml
-rm -rf $OUT/demo/target
+rm -rf $OUT/demo/target $OUT/demo/docs $OUT/demo/schema.json
 git -C /repo worktree remove --force $CLEAN
+echo "worktree with the change: $WITH (remove with: git -C /repo worktree remove --force $WITH)"
